@@ -46,6 +46,8 @@ def observe(model, pop, src):
         # the unphased projection of the population, as a genotyping protocol hands it on
         from pybrops.breed.prot.gt.DenseUnphasedGenotyping import DenseUnphasedGenotyping
         arg = DenseUnphasedGenotyping().genotype(pop)
+        # the matrix has been QUERIED before (codings, frequencies): queries leave it as it was
+        arg.mat_asformat("{-1,0,1}"); arg.mat_asformat("{0,1,2}"); arg.afreq(); arg.maf()
     else:
         arg = pop if src == "matrix" else (mat[0] + mat[1]).astype("int8")
     lat = True
